@@ -122,6 +122,11 @@ func c18LayoutBody(r *Rng, tp *tokProg) string {
 			case 0:
 				b.WriteString("\t")
 			case 1:
+				if k == 0 && n == 1 && !strings.HasSuffix(tp.lex[i-1], "/") && r.Intn(3) == 0 {
+					// a comment as the only separator, no blank on either side: it still separates
+					b.WriteString([]string{"/**/", "/* c */", "/***/", "/*x*/"}[r.Intn(4)])
+					break
+				}
 				b.WriteString([]string{" /* c */ ", " /*/ slash first */ ", " /***/ ", " /* * / */ ", " /* \" ' */ ", " /*//*/ ", " /* " + K["print"] + " 1; */ ", " /**/ "}[r.Intn(8)])
 			case 2:
 				if mayBreak {
@@ -153,6 +158,34 @@ func c18LayoutBody(r *Rng, tp *tokProg) string {
 		}
 		return b.String()
 	})
+}
+
+// c18LongLineCases: one program in three layouts (data table wrapped / on one line of 80-200 KB / everything on one line).
+func c18LongLineCases(gen string) []*Case {
+	var out []*Case
+	for _, n := range []int{14000, 30000} {
+		var wrapped, flat strings.Builder
+		for i := 0; i < n; i++ {
+			v := fmt.Sprint((i*7919)%100003 + 1)
+			if i > 0 {
+				flat.WriteString(", ")
+				if i%20 == 0 {
+					wrapped.WriteString(",\n  ")
+				} else {
+					wrapped.WriteString(", ")
+				}
+			}
+			flat.WriteString(v)
+			wrapped.WriteString(v)
+		}
+		rest := []string{Print(BI("len", "tbl")), Print("tbl[0] + tbl[" + fmt.Sprint(n-1) + "]"), Print("1 + 2 * 3 ** 2"), Var("a", "0"), Var("b", "0"), "a = b = 5;", Print("a + b"), If("a", IfElse("b > 9", Print(`"then"`), Print(`"else"`))), Print(`"end"`)}
+		head := Print(`"start"`)
+		src := head + "\n" + K["var"] + " tbl = [\n  " + wrapped.String() + "\n];\n" + strings.Join(rest, "\n") + "\n"
+		one := head + "\n" + K["var"] + " tbl = [" + flat.String() + "];\n" + strings.Join(rest, "\n") + "\n"
+		all := head + " " + K["var"] + " tbl = [" + flat.String() + "]; " + strings.Join(rest, " ")
+		out = append(out, &Case{Gen: gen, Mode: "cli", Src: src, Alt: []string{one, all}, X: map[string]string{"t0": "layout", "t1": "layout"}})
+	}
+	return out
 }
 
 func c18Transforms() []c18Transform {
@@ -577,6 +610,13 @@ func c18Run(c *Ctx) {
 		if cs == nil {
 			continue
 		}
+		if c.Mine() {
+			c18Judge(c, cs)
+		}
+	}
+	// layout at scale, through the binary: the same tokens wrapped every 20 elements, on one physical line far beyond 64 KiB,
+	// and the whole program on one line
+	for _, cs := range c18LongLineCases("long-line-layout") {
 		if c.Mine() {
 			c18Judge(c, cs)
 		}
